@@ -11,7 +11,7 @@ EXPLANATION = ('Minimality of the group count, maximal spread, single-index rema
                '(R16.2) the policy dispatch tables (is_forced, is_relevant_for_coupling, per-policy claim routine, `all` admission = full size); '
                '(R16.3) strict policies are measured against the optimum of the EMPTY worker and accepted with objective >= optimum - eps.')
 NOT_DECIDED = ['minimal number of groups, maximal spread, single-index fractional remainder, no spurious refusal (optimisation results over numbers)']
-RELATED = {'C04': ['R04.3', 'R04.6', 'R04.7']}
+RELATED = {'C04': ['R04.3', 'R04.6', 'R04.7', 'R04.9']}
 ASSUMPTIONS = ['group_solver (MILP) is trusted']
 W = T + 'worker::'
 ALLOCATOR = W + 'resources::allocator::ResourceAllocator'
@@ -152,6 +152,21 @@ def run(ctx):
                 okle = True
     ctx.ob('R16.2', 'admission|All requires the full resource', okall, '`all` is admitted only when the maximal allocatable amount equals the full size as whole ResourceAmount values (units and fractions; a comparison of whole units admits `all` next to a fractional allocation)', adm[0].loc())
     ctx.ob('R16.2', 'admission|amount <= max_alloc', okle, 'the other policies are admitted when amount <= max allocatable, compared as whole ResourceAmount values', adm[0].loc())
+
+    # ---- R16.4 the admission measure
+    ctx.rule('R16.4', 'amount_max_alloc (what admission compares a request with): whole units are summed over the groups, the fractional part is the largest single free fraction (a fraction has to come from one index; adding up fractions of different indices admits requests no grant can satisfy)')
+    CONC_ = T + 'worker::resources::concise::ConciseResourceState::'
+    ama = prog.body(CONC_ + 'amount_max_alloc')
+    newc = ama.call_blocks(lambda c: c.endswith('ResourceAmount::new'))
+    ctx.ob('R16.4', 'amount_max_alloc|built from (units, fraction)', len(newc) == 1, 'amount_max_alloc builds one ResourceAmount from a unit count and a fraction', ama.loc(newc[0]) if newc else ama.loc())
+    if len(newc) == 1:
+        ua, fa_ = [op_local(a) for a in ama.term[newc[0]]['args'][:2]]
+        def _calls_feeding(l_):
+            return {(callee_decl(d_[2]) or callee_of(d_[2]) or '') for x_ in ama.derived_from(l_, through_mutation=False) for d_ in ama.defs().get(x_, ()) if d_[1] == 'call'} if l_ is not None else set()
+        fu, ff = _calls_feeding(ua), _calls_feeding(fa_)
+        ctx.ob('R16.4', 'amount_max_alloc|units summed', any(c.endswith('Iterator::sum') for c in fu), 'the unit part is a sum over the groups', ama.loc(newc[0]))
+        ctx.ob('R16.4', 'amount_max_alloc|fraction is a maximum, not a sum', any(c.endswith('Iterator::max') for c in ff) and not any(c.endswith(('Iterator::sum', 'Sum::sum', 'Add::add')) for c in ff),
+               'the fractional part is Iterator::max over the free fractions of all indices', ama.loc(newc[0]))
 
     # ---- R16.3
     b = prog.body(RA + 'has_resources_for_request')
